@@ -556,6 +556,8 @@ def stage_working(ctx, units, nmax, known):
                         bad = "stream of %d frames delivered %d, round(N*orate/irate) = %d" % (n, out, expect)
                 if "err=-" not in h:
                     bad = "error recorded during a plain stream: %s" % h[:200]
+            if not bad and tr.engine.startswith("cr"):
+                bad = repaired_shape(tr.plan, tcfg, known)
         if bad:
             # F1 and F3 are repaired in /repo: a plan that matches their signature again is a violation like any other
             hits = [h for h in pre + cr.classify_known(tr.plan, tcfg) if (h in known and site_ok(h, tr.rc, tr.err))]
@@ -592,6 +594,20 @@ def gen_threshold_cfg(rng):
     return cfg, ({"SOXR_USE_SIMD": "0"} if rng.chance(.3) else {})
 
 
+def repaired_shape(plan, cfg, known):
+    """The exported plan has the shape of a finding that is repaired in /repo (F1: a power-of-two frequency-domain up-sampling stage whose
+    block length is not a multiple of L - the clause `L | block_len` of DftShapeOK / PlanEarlyOK that the dft-block closed forms and
+    never_early need; the frame COUNTS of a short stream can still be right while every block is misplaced.  F3: a cubic stage that can
+    never advance).  Not an active known finding any more: a violation of accepted => working."""
+    for h in cr.classify_known(plan, cfg):
+        if h not in known:
+            return {"F1": "the plan has a power-of-two frequency-domain up-sampling stage whose block length is not a multiple of L (shape of the "
+                          "repaired finding F1: blocks are misplaced, the output is not the input signal): %s" % [
+                              (x.get("L"), x.get("blockLen"), x.get("numTaps")) for x in plan if x.get("kind") == "dft"],
+                    "F3": "the plan has a cubic stage whose pre_post >= input_size (shape of the repaired finding F3: it can never advance)"}.get(h, h)
+    return None
+
+
 def corner_cfgs(rng, quick):
     """Corners of the planner that a draw from the verdict product space hardly ever lands on (round 7 of the seeded changes:
     `C09-cubic-input-size-equals-pre-post`, `C09-fdomain-phase-pad-off-by-one`): (i) SOXR_QQ at decimation factors around and far
@@ -609,8 +625,6 @@ def corner_cfgs(rng, quick):
     recipes = [1, 3, 4, 6]        # LQ, (16-bit) MQ, HQ, VHQ
     for k, up in enumerate(ups):
         for j, ph in enumerate(phases):
-            if quick and (j + k) % 2:
-                continue
             rec = recipes[(j + k) % len(recipes)] if quick else rng.choice(recipes)
             jobs.append(({"ir": "1", "or": str(up), "recipe": rec, "phase": ph}, ({"SOXR_USE_SIMD": "0"} if (j + 2 * k) % 5 == 0 else {})))
     return jobs
@@ -657,6 +671,8 @@ def stage_thresholds(ctx, n, known):
                     bad = "stream of %d frames delivered %d, round(N*orate/irate) = %d" % (nfr, out, expect)
                 elif "err=-" not in h:
                     bad = "error recorded during a plain stream: %s" % h[:200]
+            if not bad:
+                bad = repaired_shape(tr.plan, cfg, known)
         if bad:
             hits = [h for h in cr.classify_known(tr.plan, cfg) if h in known and site_ok(h, tr.rc, tr.err)]
             if hits:
